@@ -31,6 +31,7 @@ func checkC09(R *Run) {
 	R.ruleNoOverwrite()
 	R.ruleDeclaredSizeCopy()
 	R.ruleResumeOffsetReply()
+	R.ruleShiftEncoding()
 	R.floor("resume-offset-reply", 2)
 	R.rulePartialPreserved()
 	R.ruleReceiveErrors()
